@@ -16,7 +16,8 @@ From Dasp Require Import Base.Res Base.ListX Ring.Fixed Ring.FixedSpec
   Graph.Nodes Graph.NodesSpec Graph.NodesProofs Graph.NodesDelayProofs Graph.NodesSignalProofs
   Graph.NodesGraphProofs Graph.NodesSumOrder Graph.NodesRun Graph.NodesRunProofs Graph.NodesExamples
   Graph.Dfs Graph.Process Graph.ProcessSpec Graph.ProcessProofs Graph.NodesCompose Graph.NodesComposeProofs
-  Graph.NodesComposeInst Graph.NodesComposeExamples.
+  Graph.NodesComposeInst Graph.NodesComposeExamples Base.Float Graph.BufferOps Graph.BufferOpsProofs
+  Graph.NodesRunBufProofs.
 Import ListNotations.
 Local Open Scope nat_scope.
 
@@ -319,3 +320,47 @@ Theorem c16_builtin_nodes_compose : forall (Smp : Type) (zero : Smp) (add : Smp 
   exists nd' out', nprocess zero add nd inp out = Ok (nd', out') /\ builtin_ok nd' /\ wfbs BLEN out'.
 Proof. exact @builtin_process_ok. Qed.
 Print Assumptions c16_builtin_nodes_compose.
+
+(* ---- the remaining public operations of Buffer (buffer.rs), as the correspondence runs them ---- *)
+
+(* Buffer::eq (`&self[..] == &other[..]`): true exactly when the lengths agree and every pair of
+   samples compares equal under the sample type's `==` *)
+Theorem c16_buffer_eq : forall (Smp : Type) (eqs : Smp -> Smp -> bool) (a b : list Smp),
+  buffer_eq eqs a b = true <->
+  length a = length b /\
+  forall i x y, nth_error a i = Some x -> nth_error b i = Some y -> eqs x y = true.
+Proof. exact @slice_eq_spec. Qed.
+Print Assumptions c16_buffer_eq.
+
+(* ... which for f32 is the IEEE comparison, not equality of bit patterns: a buffer equals itself
+   exactly when it holds no NaN, and +0.0 == -0.0 *)
+Theorem c16_buffer_eq_f32_self : forall a : list F32.t,
+  buffer_eq F32.eqb a a = negb (existsb F32.is_nan a).
+Proof. exact f32_buffer_eq_self. Qed.
+Print Assumptions c16_buffer_eq_f32_self.
+
+Theorem c16_buffer_eq_f32_zero_signs :
+  F32.eqb (BinarySingleNaN.B754_zero false) (BinarySingleNaN.B754_zero true) = true /\
+  F32.bits (BinarySingleNaN.B754_zero false) <> F32.bits (BinarySingleNaN.B754_zero true).
+Proof. exact f32_zero_signs. Qed.
+Print Assumptions c16_buffer_eq_f32_zero_signs.
+
+(* Buffer::default() is the silent buffer; `buffers.resize_with(n, Buffer::default)` does to the
+   buffer list exactly what `buffers.resize(n, Buffer::SILENT)` does: n buffers, the old ones kept,
+   the new ones BLEN samples of silence *)
+Theorem c16_buffer_default : forall (Smp : Type) (zero : Smp) (n : nat) (out : list (list Smp)),
+  apply_bop zero (BResizeDefault n) out = apply_bop zero (BResize n) out /\
+  length (apply_bop zero (BResizeDefault n) out) = n /\
+  (forall i, i < n -> i < length out -> nth_error (apply_bop zero (BResizeDefault n) out) i = nth_error out i) /\
+  (forall i, i < n -> length out <= i ->
+     nth_error (apply_bop zero (BResizeDefault n) out) i = Some (repeat zero BLEN)).
+Proof. exact @resize_default_spec. Qed.
+Print Assumptions c16_buffer_default.
+
+(* the before/after comparison the correspondence observes: entry j is Buffer::eq of buffer j *)
+Theorem c16_buffer_compare_obs : forall (Smp : Type) (eqs : Smp -> Smp -> bool) (a b : list (list Smp)),
+  length (zip_eq eqs a b) = Nat.min (length a) (length b) /\
+  forall j x y, nth_error a j = Some x -> nth_error b j = Some y ->
+    nth_error (zip_eq eqs a b) j = Some (buffer_eq eqs x y).
+Proof. exact @zip_eq_spec. Qed.
+Print Assumptions c16_buffer_compare_obs.
